@@ -196,8 +196,62 @@ func c12Gen(g *Gen) {
 		cont("i1", id, XS("not base64 at all!"), "$k0")
 		// a well-formed envelope that no server sealed
 		cont("i1", id, "$"+curSlot+"|rx:30:255|rx:31:255|rx:-1:255", "$k0")
+		// foreign keys that share a long prefix with this server's key: a 32-byte key and longer keys
+		// extending it, and long keys equal in their first 32 bytes but differing later — all distinct keys
+		base := r.Bytes(64)
+		pk := func(n int, tweak bool) string {
+			k := append([]byte(nil), base[:n]...)
+			if tweak {
+				k[n-1] ^= 0x5a // suffix differs, first 32 bytes equal (n > 32)
+			}
+			return X(k)
+		}
+		type pfx struct{ home, other string }
+		pairs := []pfx{
+			{pk(32, false), pk(33, false)}, {pk(32, false), pk(48, false)}, {pk(32, false), pk(64, false)},
+			{pk(33, false), pk(32, false)}, {pk(48, false), pk(64, false)}, {pk(64, false), pk(48, false)},
+			{pk(33, false), pk(33, true)}, {pk(48, false), pk(48, true)}, {pk(64, false), pk(64, true)}, {pk(64, true), pk(33, false)},
+		}
+		for k, p := range sample2(r, pairs, g.N(3, 10)) {
+			h, o := fmt.Sprintf("h%d", k), fmt.Sprintf("o%d", k)
+			lines = append(lines, tkInstLine(h, p.home, 100000, Pick(r, []int{0, 4096}), false, "wh", rh, hk),
+				tkInstLine(o, p.other, 100000, 4096, false, "wo", rh, hk),
+				fmt.Sprintf("init %s %s %s limit=5 sess=- cur=%sc call=%sk", h, id, m, h, h),
+				fmt.Sprintf("init %s %s %s limit=5 sess=- cur=%sc call=%sk", o, id, m, o, o),
+				fmt.Sprintf("mint cursor %sf %s %s age=0 callid=@%sc method=%s skind=%s count=1 limit=9", o, o, id, h, m, kindOfMethod(m)))
+			cont(h, id, "$"+o+"c", "$"+o+"k") // the other server's whole token set
+			cont(h, id, "$"+o+"f", "$"+h+"k") // its cursor naming this server's call, with this server's call token
+			cont(h, id, "$"+h+"c", "$"+o+"k") // genuine cursor, foreign call token (consulted when the cache is off)
+			cont(o, id, "$"+h+"c", "$"+h+"k") // and the other direction
+			cont(h, id, "$"+h+"c", "$"+h+"k") // control: own tokens accepted
+		}
 		// the stream still works after all the refusals
 		lines = append(lines, fmt.Sprintf("cont i1 %s %s cur=$%s call=$k0 cancel=0 sess=- out=cz", id, m, curSlot))
 		g.Case(lines...)
 	}
+}
+
+func kindOfMethod(m string) string {
+	for _, x := range tkMethods {
+		if x.name == m {
+			return x.kind
+		}
+	}
+	return "E"
+}
+
+func sample2[T any](r *Rng, xs []T, k int) []T {
+	if len(xs) <= k {
+		return xs
+	}
+	out := make([]T, 0, k)
+	seen := map[int]bool{}
+	for len(out) < k {
+		i := r.Intn(len(xs))
+		if !seen[i] {
+			seen[i] = true
+			out = append(out, xs[i])
+		}
+	}
+	return out
 }
